@@ -38,6 +38,8 @@ def build(env, per_cell, dense_share):
             for j in range(per_cell):
                 s = cw.session(kem, kdf, aead, sid="e%d" % len(cw.sessions))
                 gen.add_pair(s, g, kem, mode, info=g.rbytes(rnd.choice([0, 3, 64])))
+                s.call("export", ctx="S", exctx="6578", len=32, hist=0)
+                s.call("export", ctx="R", exctx="6578", len=32, hist=0)
                 dense = rnd.random() < dense_share
                 Ls = lens_for(rnd, kdf, dense)
                 rnd.shuffle(Ls)
@@ -61,6 +63,17 @@ def build(env, per_cell, dense_share):
                             s.call("open", ctx="R", api="alloc", ct="$%s.full" % name, aad="-")
                         else:
                             s.call("open", ctx="R", api=api, ct="00" * 9, tag="-" if api == "inplace" else None, aad="-")
+                # some sessions run both contexts to exhaustion and export again: same arguments, same values
+                if aead != 0xFFFF and rnd.random() < 0.35:
+                    first = Ls[:3]
+                    s.call("set_seq", ctx="S", seq=(1 << 64) - 1)
+                    s.call("set_seq", ctx="R", seq=(1 << 64) - 1)
+                    s.call("seal", ctx="S", api="alloc", pt="aa", aad="-", out="last")
+                    s.call("open", ctx="R", api="alloc", ct="$last.full", aad="-")
+                    s.call("seal", ctx="S", api="alloc", pt="aa", aad="-", out="toolate")
+                    for L in first + [32]:
+                        s.call("export", ctx="S", exctx="6578", len=L, hist="exhausted")
+                        s.call("export", ctx="R", exctx="6578", len=L, hist="exhausted")
     return cw
 
 
@@ -113,7 +126,10 @@ def monitor(sess, extra):
                     continue
                 last[key] = (got, name, op.args.get("hist"))
             cls = "over" if L > lim else "at_limit" if L >= lim - 1 else gen.lenclass(L)
-            r.distinct.add((sess.ids, mode, name, cls, min(int(op.args.get("hist", 0)), 3)))
+            h = op.args.get("hist", "0")
+            r.distinct.add((sess.ids, mode, name, cls, h if h == "exhausted" else min(int(h), 3)))
+            if h == "exhausted":
+                r.counts["exports_on_exhausted_contexts"] += 1
             if abs(L - lim) <= 40:
                 r.distinct.add(("near_limit", kdf, L))
             r.counts["role:%s" % name] += 1
